@@ -669,6 +669,14 @@ func (in *interp) execDefer(s Defer, sc *Scope, fr *frame) ctl {
 		if c != ctlNone {
 			return c
 		}
+		if _, isNilFunc := fv.(NilFuncV); isNilFunc {
+			// registered like any function; the deferred call fails when it runs
+			if _, c := in.evalAll(call.Args, sc, fr); c != ctlNone {
+				return c
+			}
+			fr.defers = append(fr.defers, func() ctl { return in.throwAny() })
+			return ctlNone
+		}
 		f, ok := fv.(*FuncV)
 		if !ok {
 			if _, undef := fv.(UndefV); undef {
@@ -948,6 +956,8 @@ func (in *interp) eval(e Expr, sc *Scope, fr *frame) (Value, ctl) {
 	case Boom:
 		in.logf("boom" + strconv.Itoa(e.ID))
 		return nil, in.throwAny()
+	case HostNilFunc:
+		return NilFuncV{}, ctlNone
 	case ChanOf:
 		vals, c := in.evalAll(e.Elems, sc, fr)
 		if c != ctlNone {
@@ -964,6 +974,13 @@ func (in *interp) eval(e Expr, sc *Scope, fr *frame) (Value, ctl) {
 		fv, c := in.eval(e.Fn, sc, fr)
 		if c != ctlNone {
 			return nil, c
+		}
+		if _, isNilFunc := fv.(NilFuncV); isNilFunc {
+			// a function as far as the call goes: arguments are evaluated, the call itself fails
+			if _, c := in.evalAll(e.Args, sc, fr); c != ctlNone {
+				return nil, c
+			}
+			return nil, in.throwAny()
 		}
 		f, ok := fv.(*FuncV)
 		if !ok {
